@@ -35,7 +35,7 @@ RULE = ('pool of (kind, culture, options, query, reference) tuples: seeded sampl
         'several DateTimeOptions; every tuple is observed under the schedules listed in the module docstring. non-trivial = a tuple observed under at '
         'least two different schedules with at least one entity; distinct = distinct tuple.')
 EXHAUSTIVE = False
-JOB_TIMEOUT = 2400
+JOB_TIMEOUT = 5400
 
 KINDS = {
     'number': ('NumberRecognizer', 'NumberModel'), 'ordinal': ('NumberRecognizer', 'OrdinalModel'), 'percentage': ('NumberRecognizer', 'PercentModel'),
